@@ -101,10 +101,17 @@ def check_session(line, c):
             continue
         if i == 0 or i in rec:
             raise Malformed("zero or duplicate signer identifier %s" % idhex)
-        hn = S.nonce_generate(unhex(need(s, "rand_hiding", "signer"), "rand_hiding", 32), share)
-        bn = S.nonce_generate(unhex(need(s, "rand_binding", "signer"), "rand_binding", 32), share)
-        c.eq(f + "hiding_nonce", S.ser_scalar(hn), need(s, "hiding_nonce", "signer"))
-        c.eq(f + "binding_nonce", S.ser_scalar(bn), need(s, "binding_nonce", "signer"))
+        if "rand_hiding" in s or "rand_binding" in s:
+            hn = S.nonce_generate(unhex(need(s, "rand_hiding", "signer"), "rand_hiding", 32), share)
+            bn = S.nonce_generate(unhex(need(s, "rand_binding", "signer"), "rand_binding", 32), share)
+            c.eq(f + "hiding_nonce", S.ser_scalar(hn), need(s, "hiding_nonce", "signer"))
+            c.eq(f + "binding_nonce", S.ser_scalar(bn), need(s, "binding_nonce", "signer"))
+        else:
+            # injected nonces (no randomness behind them): taken as given, everything downstream is recomputed
+            hn = c.decode(f + "hiding_nonce", S.de_scalar, unhex(need(s, "hiding_nonce", "signer"), "hiding_nonce"))
+            bn = c.decode(f + "binding_nonce", S.de_scalar, unhex(need(s, "binding_nonce", "signer"), "binding_nonce"))
+            if hn is None or bn is None or hn == 0 or bn == 0:
+                raise Malformed("injected nonces must be valid non-zero scalars")
         c.eq(f + "hiding_commitment", S.ser_elem(S.commit(hn)), need(s, "hiding_commitment", "signer"))
         c.eq(f + "binding_commitment", S.ser_elem(S.commit(bn)), need(s, "binding_commitment", "signer"))
         c.eq(f + "verifying_share", S.ser_elem(S.public_key(share)), need(s, "verifying_share", "signer"))
